@@ -226,6 +226,37 @@ def run(facts, tier):
                     r5.violate(f"unconditional/{Body.callee(b.bbs[s_]['t'])}", f"`{Body.callee(b.bbs[s_]['t'])}` in the command-line driver is not conditional on --in-place: a plain run would create/rename/chmod files", where=b.bbs[s_]["t"]["sp"])
     rules.append(r5.finish())
 
+    # R6.1x (thorough): the same reachability obligation on a second program built from the library crates
+    if tier == "thorough":
+        import common
+        rx = Rule("R6.1x", "the reachability obligation R6.1 also holds for a second root program (jaq-all/examples/main.rs: compile a filter with all natives, run it on stdin) -- the natives, interpreter and codecs as a library, without the command-line driver", floor=5000)
+        try:
+            d2 = common.facts_dir(config="example-main", cargo_args=["-p", "jaq-all", "--example", "main"],
+                                  extra_env={"JAQLINT_CRATES": "jaq_core,jaq_std,jaq_json,jaq_fmts,jaq_all,main", "JAQLINT_MONO": "main"})
+            g2 = Mono(common.load(d2, "main.bin.mono.json"))
+            N2 = g2.nodes
+            nat2, int2, cod2 = roots_of(g2)
+            cut2 = lambda a, b, k: N2[b]["crate"] == "jiff" and re.match(r"^jaq_std::time\b", fn_def(N2[a])) is not None
+            par2 = g2.reach(nat2 | int2 | cod2, cut_edge=cut2)
+            if len(nat2) < 130 or len(int2) != 3:
+                rx.violate("roots", f"second root program: {len(nat2)} native roots, {len(int2)} interpreter entry points found")
+            for i in par2:
+                n = N2[i]
+                rx.examined(i, is_leaf(n))
+                if asm_bad(n):
+                    rx.violate(f"asm/{n['def']}", f"[example main] kernel-entering inline assembly reachable ({n['asm']})", detail=g2.chain(par2, i))
+                if not is_leaf(n):
+                    continue
+                fam = classify(fams, n)
+                if fam is None:
+                    rx.violate(f"unclassified/{n['def']}", f"[example main] leaf `{n['def']}` reachable during execution is not classified", detail=g2.chain(par2, i))
+                elif fam in FORBIDDEN:
+                    rx.violate(f"{fam}/{n['def']}", f"[example main] `{n['def']}` ({fam}) is reachable during filter execution", detail=g2.chain(par2, i))
+            rx.samples = [{"program": "jaq-all/examples/main.rs", "instances": len(N2), "native_roots": len(nat2), "reachable_without_tz": len(par2)}]
+        except SystemExit as e:
+            rx.violate("extract", f"facts of the second root program could not be extracted: {e}")
+        rules.append(rx.finish())
+
     # R6.4: resolution completeness (soundness side condition of the graph)
     r4 = Rule("R6.4", "every indirect call reachable during execution resolves by exact erased signature and every virtual call has at least one implementor (otherwise the arity fallback is used and listed)", floor=100)
     unres = [(a, s) for a, s, c in g.unresolved_indirect if a in par_all]
